@@ -119,7 +119,11 @@ func (c *reconnectClient) Connect(ctx context.Context, clientID string, opts ...
 									// Stopped by the reconnect loop; the connection has already finished.
 									return
 								}
-								baseCli.SetErrorOnce(err)
+								baseCli.mu.Lock()
+								if baseCli.connState != StateDisconnected {
+									baseCli.SetErrorOnce(err)
+								}
+								baseCli.mu.Unlock()
 								// The client should close the connection if PINGRESP is not returned.
 								// MQTT 3.1.1 spec. 3.1.2.10
 								baseCli.Close()
